@@ -208,6 +208,9 @@ def units(tier):
     us = [Unit("exhaustive-small-graphs-all-starts", check, count=lambda t: len(_exh_list(t)), cases=_exh_cases, shards=(16, 64),
                space="every labelled graph n<=4 (thorough: n<=5) and digraph n=3 (thorough: + every 5th n=4) with >= 1 edge x every set "
                      "partition as start x seeds {0,1} (thorough {0..3}) for finetune_und / finetune_und_sign / finetune_dir / community_louvain, gamma=1")]
+    from hypothesis import strategies as st
+    us.append(Unit("all-optimisers-n<=32", check, strategy=lambda: st.sampled_from(list(mc.OPTIMISERS)).flatmap(lambda nm: cases(nm, 32)),
+                   examples=(120, 2400), shards=(12, 16)))
     for name in mc.OPTIMISERS:
         ex = (500, 6000) if name == "community_louvain" else (300, 4000)
         us.append(Unit(name, check, strategy=(lambda nm=name: cases(nm, nmax)), examples=ex, shards=(2, 8)))
